@@ -139,3 +139,33 @@ Section Sets.
     apply NoDup_snoc; assumption.
   Qed.
 End Sets.
+
+Section ListEq.
+  Context {A : Type} `{EqB A}.
+  Fixpoint list_eqb (l1 l2 : list A) : bool :=
+    match l1, l2 with
+    | [], [] => true
+    | x :: t, y :: u => eqb x y && list_eqb t u
+    | _, _ => false
+    end.
+  Lemma list_eqb_eq l1 : forall l2, list_eqb l1 l2 = true <-> l1 = l2.
+  Proof.
+    induction l1 as [|x t IH]; intros [|y u]; simpl; try (split; congruence).
+    rewrite andb_true_iff, IH. split.
+    - intros [E ->]. apply eqb_true in E. subst. reflexivity.
+    - intros E. inversion E; subst. split; [apply eqb_refl|reflexivity].
+  Qed.
+  #[export] Instance EqB_list : EqB (list A) := {| eqb := list_eqb; eqb_eq := list_eqb_eq |}.
+End ListEq.
+
+(* stable insertion sort: the unique stable arrangement for a strict weak order [lt] *)
+Section Sort.
+  Context {A : Type}.
+  Variable lt : A -> A -> bool.
+  Fixpoint insert_sorted (x : A) (l : list A) : list A :=
+    match l with
+    | [] => [x]
+    | y :: t => if lt x y then x :: y :: t else y :: insert_sorted x t
+    end.
+  Definition stable_sort (l : list A) : list A := fold_left (fun acc x => insert_sorted x acc) l [].
+End Sort.
